@@ -301,6 +301,9 @@ class AstKindProp(Prop):
         opts = self.gen_opts(r)
         if (opts.get("word_wrap") and r.random() < 0.7) or (not opts.get("word_wrap") and r.random() < 0.15):
             irj = G.lengthen(r, irj)  # (long prose with wrapping off too: nothing may be wrapped then)
+        if any(isinstance(p.get("default"), (int, float)) and not isinstance(p.get("default"), bool) and p["default"] < 0 for _, p in irj["params"]):
+            # a negative number is a Constant in the emitted tree and a UnaryOp after unparse / re-parse: both routes, evenly
+            opts["direct"] = r.random() < 0.5
         c = {"ir": irutil.ir_to_json(irj), "opts": opts}
         run.dist["n_params"][len(irj["params"])] += 1
         for _, p in irj["params"]:
